@@ -531,7 +531,28 @@ func (x *X) threadEnabled(t *Thread) bool {
 	if p.kind == int(verifsync.KindLock) {
 		return ls.writer == nil && ls.readers == 0
 	}
-	return ls.writer == nil
+	if ls.writer != nil {
+		return false
+	}
+	// Go's RWMutex prefers writers: once a writer waits in Lock(), new
+	// readers block behind it. A thread that already holds a read lock
+	// on m and asks for another one therefore deadlocks if a writer
+	// arrived in between. A writer parked at its Lock(m) hook may be
+	// regarded as having arrived (the execution in which it has not yet
+	// is explored on another branch), so the recursive reader is not
+	// enabled; the writer is not enabled either (readers > 0) and the
+	// engine reports the deadlock.
+	for _, h := range t.held {
+		if h.m == p.m && h.read {
+			for _, w := range x.threads {
+				if w != t && !w.done && w.pend != nil && w.pend.kind == int(verifsync.KindLock) && w.pend.m == p.m {
+					return false
+				}
+			}
+			break
+		}
+	}
+	return true
 }
 
 func (x *X) stateKey(gk string) string {
